@@ -5,8 +5,12 @@
    Part A: the sequential semantics [step], for EVERY reachable state: any cacher (nil or lru), any
            initial capacity, any finite sequence of Get/Release/Delete/Evict/EvictNS/EvictAll/
            SetCapacity/Close operations, no bound on keys, sizes or length.
-   Part B: the interleaved semantics (Conc/CacheLts.v), any number of goroutines; see there which
-           statements are complete and which are _partial.
+   Part B: the interleaved semantics (Conc/CacheLts.v): any number of goroutines, every interleaving of
+           atomic actions at lock granularity (the decrement of a reference count and its zero-check are
+           separate actions).  Complete for the OPEN cache (all operations except Close); for Close the
+           faithful model REFUTES the property (C17_close_race_refuted, reproduced on the implementation),
+           so the statements that involve Close are proved for the sequential semantics only and the
+           interleaved ones are named _partial.
 
    Reading guide: [s_log s] is the history of user-visible calls, newest first:
      EvConstruct x v sz  setFunc ran for the node (residency) x and returned value v of charge sz
@@ -14,7 +18,7 @@
      EvDelReg d x         Delete attached delFunc d to node x;   EvDelRun d   delFunc d ran
    cf v / ccn x / ccv v / cdr d count EvFinal v / EvConstruct x _ _ / EvConstruct _ v _ / EvDelRun d. *)
 From GL Require Import Conc.Cache Conc.CacheLemmas Conc.CacheInv Conc.CacheProofs Conc.CacheTheorems.
-From GL Require Import Conc.CacheLts Conc.CacheLtsProofs.
+From GL Require Import Conc.CacheLts Conc.CacheLtsProofs Conc.CacheLtsInv.
 From Coq Require Import Lia.
 
 (* ================================================================ Part A: sequential semantics *)
@@ -179,3 +183,114 @@ Theorem C17_seq_op_is_a_schedule : forall s o, s_panic (fst (step_raw s o)) = fa
   exists s1 code rl, start o false s = Some (s1, code, rl) /\ drains s1 code (fst (step_raw s o)).
 Proof. exact seq_is_a_schedule. Qed.
 Print Assumptions C17_seq_op_is_a_schedule.
+
+(* B2. ALL interleavings of Get / Release / Delete / Evict / EvictNS / EvictAll / SetCapacity by any number
+       of goroutines on the open cache ([lreach_o]: every finite sequence of enabled actions).
+       Named _partial because Close is excluded (B3) and because of what the LTS abstracts (atomicity
+       granularity, Go memory model, bucket-array resize) — within the LTS these are complete. *)
+Theorem C17_one_live_value_lts_partial : forall L, lreach_o L ->
+  forall h1 h2 n1 n2, handle_node (l_g L) h1 = Some n1 -> handle_node (l_g L) h2 = Some n2 -> keyof n1 = keyof n2 ->
+    n1 = n2 /\
+    exists v, handle_value (l_g L) h1 = Some v /\ handle_value (l_g L) h2 = Some v /\
+              ccn (n_id n1) (s_log (l_g L)) = 1%nat /\ ccv v (s_log (l_g L)) = 1%nat /\ cf v (s_log (l_g L)) = 0%nat.
+Proof. exact one_live_value_lts. Qed.
+Print Assumptions C17_one_live_value_lts_partial.
+
+Theorem C17_construct_once_lts_partial : forall L, lreach_o L ->
+  forall x v, (ccn x (s_log (l_g L)) <= 1)%nat /\ (ccv v (s_log (l_g L)) <= 1)%nat.
+Proof. exact construct_once_lts. Qed.
+Print Assumptions C17_construct_once_lts_partial.
+
+Theorem C17_finalise_at_most_once_lts_partial : forall L, lreach_o L -> forall v, (cf v (s_log (l_g L)) <= 1)%nat.
+Proof. exact finalise_at_most_once_lts. Qed.
+Print Assumptions C17_finalise_at_most_once_lts_partial.
+
+Theorem C17_finalise_not_early_lts_partial : forall L, lreach_o L ->
+  forall x v sz, In (EvConstruct x v sz) (s_log (l_g L)) -> (1 <= cf v (s_log (l_g L)))%nat ->
+    handles_on x (s_handles (l_g L)) = 0%nat.
+Proof. exact finalise_not_early_lts. Qed.
+Print Assumptions C17_finalise_not_early_lts_partial.
+
+Theorem C17_finalise_or_live_lts_partial : forall L, lreach_o L ->
+  forall x v sz, In (EvConstruct x v sz) (s_log (l_g L)) ->
+    cf v (s_log (l_g L)) = 1%nat \/
+    (cf v (s_log (l_g L)) = 0%nat /\ exists n, In n (s_nodes (l_g L)) /\ n_id n = x /\ n_val n = Some v).
+Proof. exact finalise_or_live_lts. Qed.
+Print Assumptions C17_finalise_or_live_lts_partial.
+
+Theorem C17_delfunc_at_most_once_lts_partial : forall L, lreach_o L -> forall d, (cdr d (s_log (l_g L)) <= 1)%nat.
+Proof. exact delfunc_at_most_once_lts. Qed.
+Print Assumptions C17_delfunc_at_most_once_lts_partial.
+
+Theorem C17_delfunc_not_early_lts_partial : forall L, lreach_o L ->
+  forall d x, In (EvDelReg d x) (s_log (l_g L)) -> (1 <= cdr d (s_log (l_g L)))%nat ->
+    handles_on x (s_handles (l_g L)) = 0%nat.
+Proof. exact delfunc_not_early_lts. Qed.
+Print Assumptions C17_delfunc_not_early_lts_partial.
+
+Theorem C17_delfunc_ran_or_pending_lts_partial : forall L, lreach_o L -> forall d, d < s_next_did (l_g L) ->
+  cdr d (s_log (l_g L)) = 1%nat \/
+  (cdr d (s_log (l_g L)) = 0%nat /\ exists n, In n (s_nodes (l_g L)) /\ In d (n_dels n)).
+Proof. exact delfunc_ran_or_pending_lts. Qed.
+Print Assumptions C17_delfunc_ran_or_pending_lts_partial.
+
+(* in EVERY reachable state of the LTS, i.e. whenever the lru lock is free — not only between operations *)
+Theorem C17_capacity_respected_lts_partial : forall L, lreach_o L ->
+  s_used (l_g L) = used_sum (s_nodes (l_g L)) /\ (s_used (l_g L) <= Z.of_N (s_cap (l_g L)))%Z.
+Proof. exact capacity_respected_lts. Qed.
+Print Assumptions C17_capacity_respected_lts_partial.
+
+(* ref = outstanding handles + (1 if linked in the LRU) + references held by instructions still to run *)
+Theorem C17_ref_census_lts_partial : forall L, lreach_o L -> forall n, In n (s_nodes (l_g L)) ->
+  n_ref n = (Z.of_nat (handles_on (n_id n) (s_handles (l_g L))) + (if resident n then 1 else 0)
+             + pend_ref (n_id n) (l_thr L))%Z /\ (0 <= n_ref n)%Z.
+Proof. exact ref_census_lts. Qed.
+Print Assumptions C17_ref_census_lts_partial.
+
+(* a node whose count is 0 is exactly one whose zero-check (Cache.delete's re-check under the bucket
+   lock) is still to run: no node is leaked and none is finalised without that re-check *)
+Theorem C17_zero_ref_is_pending_lts_partial : forall L, lreach_o L -> forall n, In n (s_nodes (l_g L)) ->
+  n_ref n = 0%Z -> zero_pending (l_thr L) (n_id n) = true.
+Proof. exact zero_ref_is_pending_lts. Qed.
+Print Assumptions C17_zero_ref_is_pending_lts_partial.
+
+Theorem C17_no_panic_lts_partial : forall L, lreach_o L -> s_panic (l_g L) = false.
+Proof. exact no_panic_lts. Qed.
+Print Assumptions C17_no_panic_lts_partial.
+
+(* non-vacuity of B2: a reachable interleaving in which goroutine 2's Get revives node 0 between goroutine
+   1's decrement to zero and its zero-check; the re-check then leaves the node alone *)
+Definition revive_trace : list action :=
+  [AStart 1 (OGet 0 0 (SfRet 1 true)); AStep 1; AStep 1; AStart 1 (ORelease 0); AStep 1;
+   AStart 2 (OGet 0 0 SfNil); AStep 2; AStep 2; AStep 1].
+
+Example C17_nonvacuous_lts :
+  exists L, lrun_o (linit false 0) revive_trace = Some L /\
+            lreach_o L /\ handle_value (l_g L) 1 = Some 0 /\ cf 0 (s_log (l_g L)) = 0%nat /\
+            zero_pending (l_thr L) 0 = false.
+Proof.
+  eexists. split; [vm_compute; reflexivity|]. split; [|vm_compute; auto].
+  apply (lrun_o_reach revive_trace (linit false 0)); [apply (lo_init false 0)|vm_compute; reflexivity].
+Qed.
+
+(* B3. Close.  The faithful model REFUTES "finalised only after every handle has been released (unless
+       force-closed)" once Close(false) may run while a zero-check is pending: unRefExternal, finding the
+       cache closed, calls callFinalizer without re-checking the count.  Witness replayed on the real
+       implementation by `build/c17 --extra closerace` (tens of reproductions per 10^7 trials). *)
+Theorem C17_close_race_refuted :
+  exists L, lrun (linit false 0) close_race_trace = Some L /\
+    s_forced (l_g L) = false /\ handles_on 0 (s_handles (l_g L)) = 1%nat /\
+    handle_node (l_g L) 1 <> None /\ handle_value (l_g L) 1 = None /\
+    In (EvConstruct 0 0 1) (s_log (l_g L)) /\ cf 0 (s_log (l_g L)) = 1%nat.
+Proof. exact close_race_refuted. Qed.
+Print Assumptions C17_close_race_refuted.
+
+(* Full statements that remain open for the interleaved semantics with Close (proved above for the
+   sequential semantics, Part A):
+     forall L, lreach_q L -> ... the B2 statements ...            (lreach_q: Close starts only while every
+                                                                    other goroutine is idle)
+     forall L, lreach_q L -> s_closed (l_g L) = true -> s_handles (l_g L) = [] -> (all goroutines idle) ->
+       forall x v sz, In (EvConstruct x v sz) (s_log (l_g L)) -> cf v (s_log (l_g L)) = 1       (exactly once at the end)
+   and, for any Close discipline, the overlap of Close(true)'s callFinalizer with a concurrent Release
+   (a value finalised twice; reproduced on the implementation by the same experiment) which the LTS,
+   having callFinalizer as one action, does not represent. *)
